@@ -91,4 +91,9 @@ theorem C17_samples_are_call_durations :
     by the detector's ticks while some other target is down. -/
 theorem C17_stable_set_is_recognised : Gen.checkSortsBeforeComparing = true := by decide
 
+/-- R's least-time pick is `heapify` over the whole heap followed by the root (Model/Router.lean,
+    `schedule`), which is what `C17_least_time_minimal` is proved about — and what the source does:
+    `minHeap(c.minHeap)` precedes `c.minHeap[0]` in schedule() (read on every run). -/
+theorem C17_least_time_heapifies_fully : Gen.scheduleHeapifiesFully = true := by decide
+
 end RpcVerif.Props
